@@ -179,16 +179,19 @@ def value_of(it, src, fr):
     for p in allp:
         for tf in p.tfacts[p.ctx.n_base_tfacts:]:
             it.ctx.assume_type(tf)
+    for p in allp:
+        it.ctx.obligs.extend(p.obligs)      # e.g. preconditions of modular calls made by ghost code
     paths = [p for p in allp if p.kind == "return"]
     if not paths:
         raise Unsupported(f"ghost definition {src!r} is undefined on this path")
-    if len(paths) == 1 and len(allp) == 1:
+    if len(paths) == 1 and len([p for p in allp if p.kind != "dead"]) == 1:
         for f in paths[0].pc[nbase:]:
             it.ctx.assume(f)
         # the path condition is adopted, so the outcomes of pure modular calls made while evaluating are too
         memo = it.ctx.ghost.setdefault("pure_calls", [])
-        for ent in paths[0].ctx.ghost.get("pure_calls", []):
-            memo.append(ent)
+        for ent in list(paths[0].ctx.ghost.get("pure_calls", [])):
+            if not any(ent is e for e in memo):
+                memo.append(ent)
         return paths[0].value
     if len(paths) == 1:
         for f in paths[0].pc[nbase:]:
